@@ -2732,7 +2732,8 @@ class sptensor:
             subs2 = self.allsubs()[subs2Idx, :]
             return ttb.sptensor(
                 np.vstack((subs1, subs2)),
-                True * np.ones((subs2.shape[0], 1)).astype(self.vals.dtype),
+                True
+                * np.ones((subs1.shape[0] + subs2.shape[0], 1)).astype(self.vals.dtype),
                 self.shape,
             )
 
